@@ -385,3 +385,119 @@ def special_of(mode, clsid):
     if clsid == b"\x10\x02" and mode == SET:
         return "esfmeas"
     return None
+
+
+# ---------------------------------------------------------------------------------------
+# reference encoder: keyword arguments -> payload
+# ---------------------------------------------------------------------------------------
+class Unfit(Exception):
+    """The supplied value cannot be represented in its field."""
+
+    def __init__(self, name, why):
+        super().__init__(f"{name}: {why}")
+        self.name = name
+
+
+def raw_from_scaled(val, scale, t):
+    """Integer raw value nearest to val/scale (exact rational arithmetic)."""
+    if not isinstance(val, (int, float)):
+        raise TypeError("scaled field needs a number")
+    if isinstance(val, float) and (math.isnan(val) or math.isinf(val)):
+        raise ValueError("nan/inf")
+    q = Fraction(val) / Fraction(scale)
+    r = math.floor(q + Fraction(1, 2))
+    return r
+
+
+def encode(pdict, kwargs, parsebf=True, special=None):
+    """Reference payload for keyword construction.  Returns (payload, fields) where fields is the
+    list of Field records in payload order.  Raises Unfit if a supplied value does not fit."""
+    out = bytearray()
+    fields = []
+    vals = {}
+
+    def single(name, adef, index):
+        scale, t = 1, adef
+        if isinstance(adef, list):
+            t, scale = adef[0], adef[1]
+        nm = suffix(name, index)
+        v = kwargs.get(nm, nominal(t))
+        try:
+            if t == "CH":
+                b = enc(v, t)
+            elif scale != 1 and tletter(t) != "R":
+                b = enc(raw_from_scaled(v, scale, t), t)
+            elif scale != 1:
+                b = enc(float(v) / scale, t)
+            else:
+                if tletter(t) in "UEIL" and (isinstance(v, bool) and False or not isinstance(v, int)):
+                    raise TypeError("int required")
+                if tletter(t) == "R" and (isinstance(v, bool) and False or not isinstance(v, (int, float))):
+                    raise TypeError("number required")
+                if tletter(t) == "A" and not isinstance(v, list):
+                    raise TypeError("list required")
+                b = enc(v, t)
+        except (OverflowError, ValueError, TypeError, AttributeError, struct.error) as e:
+            raise Unfit(nm, f"{type(e).__name__}: {e}") from e
+        fields.append(Field(name=nm, base=name, off=len(out), size=len(b), typ=t, scale=scale, kind="plain", exposed=True, path=tuple(index)))
+        out.extend(b)
+        vals[nm] = v
+
+    def bitfield(name, btype, bdict, index):
+        size = tsize(btype)
+        if not parsebf:
+            nm = suffix(name, index)
+            v = kwargs.get(nm, bytes(size))
+            if not isinstance(v, bytes) or len(v) != size:
+                raise Unfit(nm, "bitfield bytes of wrong type/length")
+            fields.append(Field(name=nm, base=name, off=len(out), size=size, typ=btype, scale=1, kind="plain", exposed=True, path=tuple(index)))
+            word = int.from_bytes(v, "little")
+            bo = 0
+            for fn, ft in bdict.items():
+                bits = tsize(ft)
+                vals.setdefault(suffix(fn, index), (word >> bo) & ((1 << bits) - 1))
+                bo += bits
+            out.extend(v)
+            return
+        word, bo = 0, 0
+        off = len(out)
+        for fn, ft in bdict.items():
+            bits = tsize(ft)
+            nm = suffix(fn, index)
+            v = kwargs.get(nm, 0)
+            if isinstance(v, bool) and False or not isinstance(v, int):
+                raise Unfit(nm, "flag must be int")
+            if v < 0 or v >= (1 << bits):
+                raise Unfit(nm, f"flag value {v} does not fit {bits} bits")
+            word |= v << bo
+            fields.append(Field(name=nm, base=fn, off=off, size=size, typ=ft, scale=1, kind="flag", bitoff=bo, bits=bits, exposed=not fn.startswith("reserved"), path=tuple(index)))
+            vals[nm] = v
+            bo += bits
+        out.extend(word.to_bytes(size, "little"))
+
+    def walk(d, index):
+        for name, adef in d.items():
+            if isinstance(adef, tuple):
+                numr, sub = adef
+                if is_bitfield_type(numr):
+                    bitfield(name, numr, sub, index)
+                elif special == "cfgval":
+                    raise Unfit(name, "payload-only message")
+                else:
+                    if isinstance(numr, int):
+                        n = numr
+                    elif numr == "None":
+                        n = 0  # O16
+                    else:
+                        n = vals.get(numr, 0)
+                        if not isinstance(n, int) or n < 0:
+                            raise Unfit(numr, "group size")
+                        if special == "esfmeas" and vals.get("calibTtagValid", 0):
+                            n += 1
+                    for i in range(n):
+                        walk(sub, index + [i + 1])
+            else:
+                single(name, adef, index)
+
+    walk(pdict, [])
+    return bytes(out), fields
